@@ -151,11 +151,35 @@ def clause3(P, res):
                      witness=[f"flag store {s.loc}" for s in store] + [f"close_channels {c.loc}" for c in close] + wit)
 
 
+def clause4(P, res):
+    from rules import cachelib
+    rid = "C19-4"
+    res.rule(rid, "every appender's logger rules take part in the routing decision: in the dispatch path (process_event and its closures) the per-actor lookup "
+                  "find_most_specific_rule is made on every path through the body that contains it — the non-additivity gate is the most specific matching logger "
+                  "over ALL actors, so a lookup skipped for one actor (because it could not accept the level anyway) removes that actor's non-additive logger from "
+                  "the search and lets an ancestor's appenders receive what the child should confine")
+    n = 0
+    pe = [b for b in bodies(P) if b.name == "process_event" or (b.root or "").endswith("::process_event") or "::process_event::" in b.id]
+    for b in pe:
+        for e in b.calls():
+            if e.method == "find_most_specific_rule":
+                n += 1
+                key = f"{b.id}:lookup"
+                if cachelib.all_paths_pass(b, [(0, 0)], [e.pos]):
+                    res.holds(rid, key, "lookup on every path", where=e.loc)
+                else:
+                    res.violated(rid, key, f"a path through {b.name if b.kind == 'method' else 'the per-actor closure'} returns without consulting the actor's logger rules "
+                                 f"({e.loc} is conditional): that actor's non-additive logger no longer gates the other appenders", where=e.loc)
+    if n < 1:
+        res.unclassified(rid, "lookup-sites", "expected the per-actor rule lookup in process_event, found none: the routing code changed shape", where="rules/c19.py")
+
+
 def run(P, ctx):
     res = Result("C19")
     res.extra["explanation"] = "Delivery-path, overflow-policy and shutdown-order shapes of fibre_logging's dispatch and writer code."
     clause1(P, res)
     clause2(P, res)
+    clause4(P, res)
     # clause3 (shutdown order) is NOT armed: on the pinned tree shutdown raises the stop flag before it closes the
     # channels and the writer's final drain stops at Empty, but the window in which a blocking send is accepted
     # and never written could not be demonstrated against the real code (it needs the writer to read the flag in
